@@ -44,13 +44,18 @@ Clauses(e) ==
      <<"SpecUnchangedByParsing", (j.st = "ok" /\ ok) => Same(e.spec_after, e.spec)>>,
      <<"SecondParseSucceeds", (j.st = "ok" /\ ok) => e.outcome2 = "ok">>,
      <<"SecondParseEqualsFirst", (j.st = "ok" /\ ok /\ e.outcome2 = "ok") => e.eq12>>,
-     <<"SpecUnchangedBySecondParse", (j.st = "ok" /\ ok /\ e.outcome2 = "ok") => Same(e.spec_after2, e.spec)>> >>
+     <<"SpecUnchangedBySecondParse", (j.st = "ok" /\ ok /\ e.outcome2 = "ok") => Same(e.spec_after2, e.spec)>>,
+     \* (beyond the listed properties, judged only under VERIF_PROP = "EXTRA") the object built from a spec is a value of
+     \* its own: when the caller goes on editing the containers of the spec the object stays what it was.  The pinned
+     \* library does alias nested containers of literal arguments (DESIGN.md 11.4)
+     <<"ParsedObjectIndependentOfLaterEdits", (j.st = "ok" /\ ok) => e.independent>> >>
 
 \* which clauses belong to which property (VERIF_PROP)
 Owned(name) ==
   LET p == IOEnv.VERIF_PROP IN
   CASE p = "C16" -> name \in {"SpecUnchangedByParsing", "SecondParseSucceeds", "SecondParseEqualsFirst", "SpecUnchangedBySecondParse"}
     [] p = "C19" -> name \in {"MalformedSpecRejected", "OnlySpecErrors"}
+    [] p = "EXTRA" -> name \in {"ParsedObjectIndependentOfLaterEdits"}     \* no listed property speaks about it
     [] OTHER -> name \in {"WellFormedSpecAccepted", "ParsesToTheTermItMeans", "EqualToApiBuiltObject"}
 
 Check == LET e == Events[i]
